@@ -118,8 +118,8 @@ def _spawn(job, timeout, tmpdir):
     -> ('ok', json) | ('timeout', progress|None) | ('crash', text)"""
     jobfile = os.path.join(tmpdir, 'job.json')
     outfile = os.path.join(tmpdir, 'out.json')
-    for f in (outfile,):
-        if os.path.exists(f):
+    for f in (outfile, job.get('progress')):
+        if f and os.path.exists(f):
             os.unlink(f)
     with open(jobfile, 'w') as f:
         json.dump(job, f)
